@@ -51,4 +51,37 @@ def c06 (base : List Handler) (fn : String) (r : Req) : Option (String × String
     | _, _ => none
   | _ => none
 
+/-- interleave nulls (and, for the other series of a pair, the arbitrary value 7) into a base
+series as the mask says: '0' next base element, 'x' null in the first series, 'y' null in the
+second, anything else null in both -/
+def insertNulls (first : Bool) : List String → List Char → List String
+  | base, [] => base
+  | base, c :: cs =>
+    if c = '0' then
+      match base with
+      | v :: rest => v :: insertNulls first rest cs
+      | [] => insertNulls first [] cs
+    else if c = 'x' then (if first then "_" else "7") :: insertNulls first base cs
+    else if c = 'y' then (if first then "7" else "_") :: insertNulls first base cs
+    else "_" :: insertNulls first base cs
+
+/-- `C08ins f=<fn> ins=<mask> ...`: the model on the base series, provided it agrees with the model
+on the series with nulls inserted (`MODELDIFF` otherwise: transparency would be false in the model) -/
+def c08 (base : List Handler) (fn : String) (r : Req) : Option (String × String) :=
+  if fn ≠ "C08ins" then none else
+  let f := r.str "f"
+  let xs := splitList (r.str "xs")
+  let ys := splitList (r.str "ys")
+  let two := (r.get "ys").isSome
+  let mask := (r.str "ins").toList
+  let mk (x y : List String) : Req :=
+    let q := setKey r "xs" (joinToks x)
+    if two then setKey q "ys" (joinToks y) else q
+  let bar (t : String) : String := String.intercalate "|" (t.splitOn ";")
+  match callBase base f (mk xs ys), callBase base f (mk (insertNulls true xs mask) (insertNulls false ys mask)) with
+  | some (m1, s1), some (m2, s2) =>
+    some (if m1 = m2 then bar m1 else "MODELDIFF:" ++ bar m1 ++ ":" ++ bar m2,
+          if s1 = s2 then bar s1 else "SPECDIFF:" ++ bar s1 ++ ":" ++ bar s2)
+  | _, _ => none
+
 end Tv.Handlers
